@@ -76,6 +76,8 @@ def os_read(fd, n):
         W.log('read', (fd, n), 'E%s' % e.errno)
         raise
     W.log('read', (fd, n), _dig(data))
+    if W.on_read is not None:
+        W.on_read(fd, data)
     return data
 
 
@@ -92,7 +94,7 @@ def os_write(fd, data):
     total = 0
     try:
         of = K.get(fd)
-        short = W.short_write(len(data))
+        short = W.short_write(len(data)) if fd == W.short_fd else 0
         rest = data[:short] if short else data
         while rest:
             if of.write_room() <= 0:
